@@ -236,8 +236,20 @@ def trace_origin(
     # Without this, we could for example think that `os` was accessible in `pathlib`,
     # and end up putting `from pathlib import os` in generated code.
     if __all__:
+        # What a star import takes from a module is decided in its own scope: a local of one of
+        # its functions, or an attribute of one of its classes, is not a name of the module.
+        nodes -= {
+            child
+            for scope in core.walk(root, (ast.FunctionDef, ast.AsyncFunctionDef, ast.ClassDef))
+            for child in core.walk(scope, ast.AST)
+            if child is not scope
+        }
         all_template = ast.Assign(
-            targets=[ast.Name(id="__all__")], value=ast.List(elts={ast.Constant(value=str)})
+            targets=[ast.Name(id="__all__")],
+            value=(
+                ast.List(elts={ast.Constant(value=str)}),
+                ast.Tuple(elts={ast.Constant(value=str)}),
+            ),
         )
         all_extend_template = ast.Call(
             func=ast.Attribute(value=ast.Name(id="__all__"), attr="extend"),
@@ -263,6 +275,9 @@ def trace_origin(
 
             if name not in all_filter:
                 return None
+
+        elif name.startswith("_"):
+            return None  # Without __all__, a star import leaves out the names with a leading underscore
 
     for node in sorted(nodes, key=lambda n: (n.lineno, n.col_offset), reverse=True):
         if isinstance(node, (ast.Import, ast.ImportFrom)):
